@@ -33,6 +33,7 @@ type Result struct {
 	Livelock    bool     // step horizon exceeded
 	Diverged    bool     // replay met a different situation than recorded: nondeterminism not owned
 	DivergeInfo string
+	Picks       int // selects with several ready cases resolved by the scheduler
 	Racy        int // evaluations of an awaited select with more than one ready case (Go picks at random)
 	RacyAt      int // number of prefix points honoured before a racy divergence (-1: none)
 	Panics      []string
@@ -385,6 +386,38 @@ func hookYield(kind string, obj interface{}) {
 	if x := current; x != nil && !x.finished {
 		x.point(kind, nil, false)
 	}
+}
+
+// choose is a decision point that is not a thread switch: the running thread asks the
+// scheduler to resolve an awaited select with n ready cases (owned nondeterminism of Go's select).
+func (x *Exec) choose(kind string, n int) int {
+	x.steps++
+	t := x.cur
+	p := Point{Thread: t.id, Kind: "pick:" + kind}
+	for i := 0; i < n; i++ {
+		p.Enabled = append(p.Enabled, t.id)
+	}
+	i := len(x.res.Points)
+	if i < len(x.prefix) {
+		p.Choice = x.prefix[i]
+		if p.Choice >= n || (i < len(x.expectN) && x.expectN[i] != n) {
+			x.res.Diverged = true
+			x.res.DivergeInfo = fmt.Sprintf("point %d: replay expects choice %d of %d, found a pick among %d (%s)", i, p.Choice, exp(x.expectN, i), n, kind)
+			x.res.Points = append(x.res.Points, p)
+			x.stall()
+			select {}
+		}
+	}
+	x.res.Points = append(x.res.Points, p)
+	x.res.Picks++
+	return p.Choice
+}
+
+func hookPick(site string, n int) int {
+	if x := current; x != nil && !x.finished {
+		return x.choose(site, n)
+	}
+	return 0
 }
 
 func hookRacy(site string) {
